@@ -103,6 +103,7 @@ static Bytes descs(size_t n, uint64_t salt) {
 int main(int argc, char **argv) {
     Args a = parse_args(argc, argv);
     if (!a.replay.empty()) return replay_case(a, run);
+    zygote_start(run);   // before any code under test runs in this process
     Current::install(a.failing);
     Evidence ev;
     ev.rule = "Emit with n descriptors (kind 0/1, pause 0..255 weighted on 0/255, arbitrary src/dst) from the active mapper (direct or bridged) inside generated histories; "
